@@ -1885,3 +1885,130 @@ Lemma rgb_colour_sets :
   colset map_Rgb888 = [0; 16711680; 65280; 255; 16776960; 16711935; 65535; 16777215] /\
   colset map_Bgr888 = [0; 255; 65280; 16711680; 65535; 16711935; 16776960; 16777215].
 Proof. repeat split; reflexivity. Qed.
+
+(* ---- the Debug text in terms of the printed rows ------------------------------------------------------ *)
+Lemma empty_rows_le d : (empty_rows d <= NS)%nat.
+Proof.
+  rewrite empty_rows_eq. pose proof (chunks_cells d) as HR. cbv zeta in HR. destruct HR as [_ [HRl _]].
+  pose proof (trailing_split row_is_empty (chunks NS (cells_list d))) as HT. cbv zeta in HT. destruct HT as [He _].
+  rewrite HRl in He. exact He.
+Qed.
+
+Lemma debug_rows_length m d rows : debug_rows m d = Ok rows -> length rows = (NS - empty_rows d)%nat.
+Proof.
+  rewrite debug_rows_eq. intros H. apply mapM_length in H. rewrite H, firstn_length.
+  pose proof (chunks_cells d) as HR. cbv zeta in HR. destruct HR as [_ [HRl _]]. rewrite HRl. lia.
+Qed.
+
+(* what Debug writes: header, the rows each followed by '\n', "(n empty rows skipped)" with n = 64 - printed rows when n > 0, "]" *)
+Theorem debug_string_rows m d rows :
+  debug_rows m d = Ok rows ->
+  zlen rows <= SIZE /\
+  debug_string m d =
+    Ok (STR_HEAD ++ [10] ++ concat (map (fun r => r ++ [10]) rows)
+        ++ (if zlen rows <? SIZE then [40] ++ decimal (SIZE - zlen rows) ++ STR_SKIP ++ [10] else []) ++ [93; 10]).
+Proof.
+  intros H. pose proof (debug_rows_length m d rows H) as HL. pose proof (empty_rows_le d) as He.
+  assert (Z.of_nat (empty_rows d) = SIZE - zlen rows) as Ee by (unfold zlen; rewrite HL, <- NS_SIZE; lia).
+  split; [unfold zlen; rewrite HL, <- NS_SIZE; lia|].
+  unfold debug_string. rewrite H. cbn [bind]. cbv zeta. rewrite Ee.
+  replace (0 <? SIZE - zlen rows) with (zlen rows <? SIZE) by lia. reflexivity.
+Qed.
+
+(* the number is printed in decimal *)
+Lemma decimal_small : forallb (fun n => match decimal n with
+                                         | [a] => (n <? 10) && (a =? 48 + n)
+                                         | [a; b] => (10 <=? n) && (a =? 48 + n / 10) && (b =? 48 + n mod 10)
+                                         | _ => false end) (range 0 100) = true.
+Proof. vm_compute. reflexivity. Qed.
+
+Theorem decimal_spec n : 0 <= n < 100 -> decimal n = if n <? 10 then [48 + n] else [48 + n / 10; 48 + n mod 10].
+Proof.
+  intros Hn. pose proof decimal_small as H. rewrite forallb_forall in H. specialize (H n (proj2 (In_range _ _ _) Hn)).
+  destruct (decimal n) as [|a [|b [|c t]]]; try discriminate.
+  - apply andb_true_iff in H. destruct H as [H1 H2]. rewrite H1. f_equal. lia.
+  - apply andb_true_iff in H. destruct H as [H H3]. apply andb_true_iff in H. destruct H as [H1 H2].
+    replace (n <? 10) with false by lia. f_equal; [lia|f_equal; lia].
+Qed.
+
+(* ---- patterns in any case: lower-case hex digits are accepted and print back in upper case ------------- *)
+Definition char_accepted (m : mapping) (ch : Z) : Prop := ch = SPACE \/ exists v, char_to_color m ch = Ok v.
+Definition pattern_wf_any (m : mapping) (pat : list (list Z)) : Prop :=
+  (length pat <= NS)%nat /\ (exists w, (w <= NS)%nat /\ Forall (fun r => length r = w) pat) /\
+  Forall (Forall (char_accepted m)) pat.
+
+Lemma upper_space ch : ascii_upper ch = SPACE <-> ch = SPACE.
+Proof. unfold ascii_upper, SPACE. destruct ((97 <=? ch) && (ch <=? 122)) eqn:E; lia. Qed.
+
+Lemma accepted_upper m ch :
+  In m all_mappings -> char_accepted m ch ->
+  char_valid m (ascii_upper ch) /\ pattern_char m (ascii_upper ch) = pattern_char m ch.
+Proof.
+  intros Hm [->|[v E]].
+  - split; [left; reflexivity|reflexivity].
+  - destruct (Z.eq_dec ch SPACE) as [->|Hne]; [split; [left; reflexivity|reflexivity]|].
+    destruct (accepted_chars_roundtrip m ch v Hm E) as [E1 Hin]. split; [right; exact Hin|].
+    destruct (charset_roundtrip m _ Hm Hin) as [v' [F1 [F2 [F3 F4]]]].
+    assert (v' = v) by (apply (debug_chars_distinct m v' v (ascii_upper ch) Hm F4 F2 E1)). subst v'.
+    unfold pattern_char. replace (ch =? SPACE) with false by lia.
+    replace (ascii_upper ch =? SPACE) with false by (pose proof (upper_space ch); lia).
+    rewrite E, F1. reflexivity.
+Qed.
+
+Lemma mapM_map_ext {A B} (f : A -> result B) (g : A -> A) l :
+  (forall x, In x l -> f (g x) = f x) -> mapM f (map g l) = mapM f l.
+Proof.
+  induction l as [|x l IH]; intros H; cbn [map mapM]; [reflexivity|].
+  rewrite (H x (or_introl eq_refl)), IH; [reflexivity|]. intros y Hy. apply H. right. exact Hy.
+Qed.
+
+Lemma from_pattern_upper m pat :
+  In m all_mappings -> Forall (Forall (char_accepted m)) pat ->
+  from_pattern m (map (map ascii_upper) pat) = from_pattern m pat.
+Proof.
+  intros Hm Hv. unfold from_pattern. cbv zeta.
+  assert ((match map (map ascii_upper) pat with [] => 0 | r :: _ => zlen r end) = (match pat with [] => 0 | r :: _ => zlen r end)) as Ew
+    by (destruct pat; cbn [map]; [reflexivity|unfold zlen; rewrite map_length; reflexivity]).
+  rewrite Ew. set (w := match pat with [] => 0 | r :: _ => zlen r end).
+  replace (zlen (map (map ascii_upper) pat)) with (zlen pat) by (unfold zlen; rewrite map_length; reflexivity).
+  replace (forallb (fun r => zlen r =? w) (map (map ascii_upper) pat)) with (forallb (fun r => zlen r =? w) pat).
+  2:{ clearbody w. clear. induction pat as [|r t IH]; cbn [map forallb]; [reflexivity|]. rewrite <- IH. unfold zlen at 3. rewrite map_length. reflexivity. }
+  rewrite (mapM_map_ext _ (map ascii_upper) pat); [reflexivity|].
+  intros r Hr. f_equal. rewrite Forall_forall in Hv. specialize (Hv r Hr). rewrite Forall_forall in Hv.
+  apply mapM_map_ext. intros ch Hc. apply accepted_upper; auto.
+Qed.
+
+Theorem pattern_then_debug_any_case m pat :
+  In m all_mappings -> pattern_wf_any m pat ->
+  exists d, from_pattern m pat = Ok d /\
+    debug_rows m d = Ok (normalise (map (map ascii_upper) pat)) /\
+    forall x y, 0 <= x < SIZE -> 0 <= y < SIZE ->
+      exists c, get_pixel d (P x y) = Ok c /\ pattern_char m (nth (Z.to_nat x) (nth (Z.to_nat y) pat []) SPACE) = Ok c.
+Proof.
+  intros Hm [Hh [[w [Hw Hrows]] Hv]].
+  assert (pattern_wf m (map (map ascii_upper) pat)) as Hwf.
+  { split; [rewrite map_length; exact Hh|]. split.
+    - exists w. split; [exact Hw|]. apply Forall_forall. intros r Hr. apply in_map_iff in Hr. destruct Hr as [r0 [<- Hr0]].
+      rewrite map_length. rewrite Forall_forall in Hrows. apply Hrows, Hr0.
+    - apply Forall_forall. intros r Hr. apply in_map_iff in Hr. destruct Hr as [r0 [<- Hr0]].
+      apply Forall_forall. intros ch Hc. apply in_map_iff in Hc. destruct Hc as [c0 [<- Hc0]].
+      rewrite Forall_forall in Hv. specialize (Hv r0 Hr0). rewrite Forall_forall in Hv. apply accepted_upper; auto. }
+  destruct (pattern_then_debug m _ Hm Hwf) as [d [E [HD Hpix]]].
+  rewrite from_pattern_upper in E by assumption.
+  exists d. split; [exact E|]. split; [exact HD|]. intros x y Hx Hy.
+  destruct (Hpix x y Hx Hy) as [c [Ec [_ Hc]]]. exists c. split; [exact Ec|].
+  set (ch := nth (Z.to_nat x) (nth (Z.to_nat y) pat []) SPACE).
+  assert (nth (Z.to_nat x) (nth (Z.to_nat y) (map (map ascii_upper) pat) []) SPACE = ascii_upper ch) as En.
+  { change (@nil Z) with (map ascii_upper []) at 1. rewrite map_nth.
+    change SPACE with (ascii_upper SPACE) at 1. rewrite map_nth. reflexivity. }
+  rewrite En in Hc. rewrite <- Hc. symmetry.
+  assert (char_accepted m ch) as Ha.
+  { unfold ch. destruct (Nat.lt_ge_cases (Z.to_nat y) (length pat)) as [Hy'|Hy'].
+    - assert (In (nth (Z.to_nat y) pat []) pat) as Hr by (apply nth_In; assumption).
+      rewrite Forall_forall in Hv. specialize (Hv _ Hr). rewrite Forall_forall in Hv.
+      destruct (Nat.lt_ge_cases (Z.to_nat x) (length (nth (Z.to_nat y) pat []))) as [Hx'|Hx'].
+      + apply Hv, nth_In, Hx'.
+      + rewrite nth_overflow by assumption. left. reflexivity.
+    - rewrite (nth_overflow pat) by assumption. rewrite nth_nil. left. reflexivity. }
+  apply accepted_upper; assumption.
+Qed.
